@@ -1,6 +1,6 @@
 (* C07, liveness stack: non-vacuity.  A concrete station with a live cache (2 h, map) / a non-live cache, three clients
    whose registrations name the same IPv4 phantom, and the histories the theorems speak about. *)
-From CJ Require Import Common.Base C06.Model C07.Model C07.Proofs C07.ModelLive C07.ProofsLive C07.Examples.
+From CJ Require Import Common.Base C06.Model C07.Model C07.Proofs C07.ModelLive C07.ProofsLive C07.ProofsSeq C07.Examples.
 Local Open Scope N_scope.
 
 Definition hour : N := 1000.
@@ -61,3 +61,12 @@ Example dual_stack_cached_live :
   map (fun e => match e with Announce r => r_phantom r | _ => None end)
       (eff lc_live [HReg (client 1) true err_livehost; HMsg dual false err_notlive]) = [None; Some ph6].
 Proof. vm_compute. reflexivity. Qed.
+
+(* a detector-sourced dual-stack message: shared once; the same message again (even with another verdict): nothing *)
+Definition dual_det := msg (Some (pl true true 1 0 [111; 107] false)) src_detector (Some client4).
+Example repeated_message_shared_once :
+  count is_share (snd (run false cfg0 [] dual_det)) = 1%nat /\ n_announced (run false cfg0 [] dual_det) = 2%nat /\
+  snd (run true cfg0 (fst (run false cfg0 [] dual_det)) dual_det) = [] /\
+  eff lc_live [HMsg dual_det false err_notlive; HAdv (5 * hour); HMsg dual_det true err_livehost] =
+  eff lc_live [HMsg dual_det false err_notlive].
+Proof. vm_compute. auto. Qed.
